@@ -28,6 +28,9 @@ func init() {
 // flagRead reports whether v reads the closed flag base.flag (directly, through AtomBool.Get, or through a one-line accessor method of base).
 func flagRead(p *core.Prog, v ssa.Value, base, flag string, depth int) bool {
 	v = core.Unwrap(v)
+	if addr, ok := core.StateLoadCmp(v); ok {
+		return core.Path(addr) == base+"."+flag
+	}
 	switch x := v.(type) {
 	case *ssa.UnOp:
 		if x.Op == token.MUL {
@@ -71,6 +74,7 @@ type c15chan struct {
 
 func runC15(c *core.Ctx) {
 	p := c.P
+	theProgC15 = p
 	c.Rule("R1", "each close(C) of a field channel runs with an exclusive lock of the same object held, and a store of true to the object's closed flag precedes it on every path", 6)
 	c.Rule("R2", "each send on a closable field channel (bare, in a select, or through a ChannelQueue helper) runs with the closer's lock held (R or W) and is dominated, within that lock hold, by a test of the closed flag taking the not-closed edge (followed through closures passed to lock wrappers and through unexported helpers via all their call sites)", 8)
 	c.Rule("R3", "operations started after the close report it: the closed edge of the entry points returns the documented sentinel (ErrQueueIsClosed / ErrWorkerPoolIsClosed / 0) or drops the work", 8)
@@ -356,7 +360,7 @@ func closedFlagSetBefore(p *core.Prog, cl core.ChanOp) string {
 							target = x.Addr
 						}
 					case *ssa.Call:
-						if h := core.Callee(&x.Call); h != nil && core.IsAtomSet(h) && len(x.Call.Args) == 2 && isTrueConst(x.Call.Args[1]) {
+						if h := core.Callee(&x.Call); h != nil && core.FlagSetTrue(&x.Call) {
 							target = x.Call.Args[0]
 						}
 					}
@@ -437,16 +441,16 @@ func flagSetBeforeIn(fn *ssa.Function, at ssa.Instruction, base string) string {
 				found = core.FieldName(fa.X.Type(), fa.Field)
 			}
 		case *ssa.Call:
-			g := core.Callee(&x.Call)
-			if g != nil && core.IsAtomSet(g) && len(x.Call.Args) == 2 && isTrueConst(x.Call.Args[1]) {
-				if fa, ok := x.Call.Args[0].(*ssa.FieldAddr); ok && core.Path(core.FieldOwner(fa)) == cl.Base {
-					found = core.FieldName(fa.X.Type(), fa.Field)
-				}
+			if fld, owner, ok := flagSetOf(theProgC15, x); ok && owner == cl.Base {
+				found = fld
 			}
 		}
 	})
 	return found
 }
+
+// theProgC15: the program of the current run (flagSetBeforeIn has no Prog parameter).
+var theProgC15 *core.Prog
 
 func isTrueConst(v ssa.Value) bool {
 	k, ok := v.(*ssa.Const)
